@@ -7,12 +7,15 @@ package signing
 // signing identity code (identityConverter{keys: Ks}, initializeTssRoundOne).
 
 import (
+	"context"
 	"fmt"
 	"math/big"
 	"sort"
 
 	"github.com/keep-network/keep-core/internal/testutils"
+	"github.com/keep-network/keep-core/pkg/net"
 	"github.com/keep-network/keep-core/pkg/protocol/group"
+	"github.com/keep-network/keep-core/pkg/protocol/state"
 	"github.com/keep-network/keep-core/pkg/tecdsa"
 	"github.com/keep-network/keep-core/pkg/tecdsa/common"
 )
@@ -106,4 +109,262 @@ func VerifC08Describe(m interface{}) (typ string, sender int, session string, pe
 	}
 	sort.Ints(peers)
 	return
+}
+
+// ---------------------------------------------------------------- state chain driver
+//
+// VerifChain drives the REAL signing state objects of one member without
+// computing any TSS round: the initial state is built as Execute builds it, the
+// later states are obtained with the real Next(); messages are stand-ins of the
+// real message types passed through the real codecs. Used by the C08 harness
+// (pkg/tbtc) to compare the shared history, CanTransition and the state type
+// with specs/SigningMachine after every step.
+
+type verifSink struct{ sent []net.TaggedMarshaler }
+
+func (c *verifSink) Name() string { return "verif-c08" }
+func (c *verifSink) Send(_ context.Context, m net.TaggedMarshaler, _ ...net.RetransmissionStrategy) error {
+	c.sent = append(c.sent, m)
+	return nil
+}
+func (c *verifSink) Recv(context.Context, func(net.Message))     {}
+func (c *verifSink) SetUnmarshaler(func() net.TaggedUnmarshaler) {}
+func (c *verifSink) SetFilter(net.BroadcastChannelFilter) error  { return nil }
+
+type verifNetMessage struct {
+	payload interface{}
+	typ     string
+	key     []byte
+}
+
+func (m *verifNetMessage) TransportSenderID() net.TransportIdentifier { return nil }
+func (m *verifNetMessage) SenderPublicKey() []byte                    { return m.key }
+func (m *verifNetMessage) Payload() interface{}                       { return m.payload }
+func (m *verifNetMessage) Type() string                               { return m.typ }
+func (m *verifNetMessage) Seqno() uint64                              { return 0 }
+
+// VerifRec is one entry of the real history.
+type VerifRec struct {
+	T   int    `json:"t"` // state that sends this message type (1, 3..11)
+	S   int    `json:"s"`
+	Ses string `json:"ses"`
+	Key string `json:"-"`
+}
+
+type VerifChain struct {
+	id      group.MemberIndex
+	base    *state.BaseAsyncState
+	sink    *verifSink
+	cur     state.AsyncState
+	session string
+	eph     *ephemeralPublicKeyMessage
+}
+
+func verifBlank(t int) message {
+	switch t {
+	case 1:
+		return &ephemeralPublicKeyMessage{}
+	case 3:
+		return &tssRoundOneMessage{}
+	case 4:
+		return &tssRoundTwoMessage{}
+	case 5:
+		return &tssRoundThreeMessage{}
+	case 6:
+		return &tssRoundFourMessage{}
+	case 7:
+		return &tssRoundFiveMessage{}
+	case 8:
+		return &tssRoundSixMessage{}
+	case 9:
+		return &tssRoundSevenMessage{}
+	case 10:
+		return &tssRoundEightMessage{}
+	case 11:
+		return &tssRoundNineMessage{}
+	}
+	return nil
+}
+
+// VerifC08NewChain builds the member and its initial state as Execute does.
+func VerifC08NewChain(memberIndex group.MemberIndex, share *tecdsa.PrivateKeyShare, groupSize, dishonestThreshold int,
+	excluded []group.MemberIndex, validator *group.MembershipValidator, session string, msg *big.Int) *VerifChain {
+	m := newMember(&testutils.MockLogger{}, memberIndex, groupSize, dishonestThreshold, validator, session, msg, share)
+	for _, e := range excluded { // copy of Execute's marking loop (the real loop runs in the real Execute runs)
+		if e != m.id {
+			m.group.MarkMemberAsDisqualified(e)
+		}
+	}
+	sink := &verifSink{}
+	base := state.NewBaseAsyncState()
+	return &VerifChain{id: memberIndex, base: base, sink: sink, session: session,
+		cur: &ephemeralKeyPairGenerationState{BaseAsyncState: base, channel: sink, member: m.initializeEphemeralKeysGeneration()}}
+}
+
+// State returns 1..12 (1 ephemeral keys, 2 symmetric keys, 3..11 TSS rounds one..nine, 12 finalization).
+func (c *VerifChain) State() int {
+	switch c.cur.(type) {
+	case *ephemeralKeyPairGenerationState:
+		return 1
+	case *symmetricKeyGenerationState:
+		return 2
+	case *tssRoundOneState:
+		return 3
+	case *tssRoundTwoState:
+		return 4
+	case *tssRoundThreeState:
+		return 5
+	case *tssRoundFourState:
+		return 6
+	case *tssRoundFiveState:
+		return 7
+	case *tssRoundSixState:
+		return 8
+	case *tssRoundSevenState:
+		return 9
+	case *tssRoundEightState:
+		return 10
+	case *tssRoundNineState:
+		return 11
+	case *finalizationState:
+		return 12
+	}
+	return 0
+}
+
+func (c *VerifChain) StateName() string   { return fmt.Sprintf("%T", c.cur) }
+func (c *VerifChain) CanTransition() bool { return c.cur.CanTransition() }
+
+// InitiateCheap runs the real Initiate of the two states that need no TSS
+// computation (1: sends the real ephemeral public key message, 2: derives the
+// symmetric keys from the real history).
+func (c *VerifChain) InitiateCheap() error {
+	st := c.State()
+	if st != 1 && st != 2 {
+		return fmt.Errorf("harness: Initiate of state %d is not cheap", st)
+	}
+	if err := c.cur.Initiate(context.Background()); err != nil {
+		return err
+	}
+	if st == 1 {
+		if len(c.sink.sent) != 1 {
+			return fmt.Errorf("state 1 sent %d messages", len(c.sink.sent))
+		}
+		c.eph = c.sink.sent[0].(*ephemeralPublicKeyMessage)
+	}
+	return nil
+}
+
+// Next calls the real Next(); final = the machine would end here.
+func (c *VerifChain) Next() (final bool, err error) {
+	defer func() {
+		if r := recover(); r != nil {
+			err = fmt.Errorf("panic: %v", r)
+		}
+	}()
+	nxt, err := c.cur.Next()
+	if err != nil {
+		return false, err
+	}
+	if nxt == nil {
+		return true, nil
+	}
+	c.cur = nxt
+	return false, nil
+}
+
+// Ephemeral returns the member's real ephemeral public key message (after InitiateCheap in state 1).
+func (c *VerifChain) Ephemeral() interface{} { return c.eph }
+
+// VerifC08Standin builds a message of the type sent by state t (1, 3..11) from
+// `sender` in `session`; eph supplies real ephemeral keys for type 1 (any
+// member's real message, see Ephemeral); peers = members addressed by
+// point-to-point parts (types 3, 4).
+func VerifC08Standin(t int, sender int, session string, peers []int, eph interface{}) (net.TaggedMarshaler, error) {
+	id := group.MemberIndex(sender)
+	junk := []byte{0xC0, 0x08, byte(t), byte(sender)}
+	pp := map[group.MemberIndex][]byte{}
+	for _, p := range peers {
+		if p != sender {
+			pp[group.MemberIndex(p)] = junk
+		}
+	}
+	switch t {
+	case 1:
+		e, ok := eph.(*ephemeralPublicKeyMessage)
+		if !ok || e == nil {
+			return nil, fmt.Errorf("harness: a real ephemeral public key message is needed")
+		}
+		return &ephemeralPublicKeyMessage{senderID: id, ephemeralPublicKeys: e.ephemeralPublicKeys, sessionID: session}, nil
+	case 3:
+		return &tssRoundOneMessage{senderID: id, broadcastPayload: junk, peersPayload: pp, sessionID: session}, nil
+	case 4:
+		return &tssRoundTwoMessage{senderID: id, peersPayload: pp, sessionID: session}, nil
+	case 5:
+		return &tssRoundThreeMessage{senderID: id, broadcastPayload: junk, sessionID: session}, nil
+	case 6:
+		return &tssRoundFourMessage{senderID: id, broadcastPayload: junk, sessionID: session}, nil
+	case 7:
+		return &tssRoundFiveMessage{senderID: id, broadcastPayload: junk, sessionID: session}, nil
+	case 8:
+		return &tssRoundSixMessage{senderID: id, broadcastPayload: junk, sessionID: session}, nil
+	case 9:
+		return &tssRoundSevenMessage{senderID: id, broadcastPayload: junk, sessionID: session}, nil
+	case 10:
+		return &tssRoundEightMessage{senderID: id, broadcastPayload: junk, sessionID: session}, nil
+	case 11:
+		return &tssRoundNineMessage{senderID: id, broadcastPayload: junk, sessionID: session}, nil
+	}
+	return nil, fmt.Errorf("harness: no message type for state %d", t)
+}
+
+// Receive passes m through the real codec and hands it to the CURRENT state's real Receive.
+func (c *VerifChain) Receive(m net.TaggedMarshaler, key []byte) error {
+	b, err := m.Marshal()
+	if err != nil {
+		return fmt.Errorf("harness: marshal: %v", err)
+	}
+	var t int
+	for _, x := range []int{1, 3, 4, 5, 6, 7, 8, 9, 10, 11} {
+		if verifBlank(x).Type() == m.Type() {
+			t = x
+		}
+	}
+	u := verifBlank(t)
+	if u == nil {
+		return fmt.Errorf("harness: unknown type %s", m.Type())
+	}
+	if err := u.(net.TaggedUnmarshaler).Unmarshal(b); err != nil {
+		return fmt.Errorf("harness: unmarshal: %v", err)
+	}
+	return c.cur.Receive(&verifNetMessage{payload: u, typ: m.Type(), key: key})
+}
+
+// History reads the real shared BaseAsyncState: distinct entries and the total number of appended messages.
+func (c *VerifChain) History() (recs []VerifRec, total int) {
+	seen := map[string]bool{}
+	for _, t := range []int{1, 3, 4, 5, 6, 7, 8, 9, 10, 11} {
+		for _, nm := range c.base.GetAllReceivedMessages(verifBlank(t).Type()) {
+			total++
+			pm, ok := nm.Payload().(message)
+			if !ok {
+				continue
+			}
+			r := VerifRec{T: t, S: int(pm.SenderID()), Ses: pm.SessionID(), Key: string(nm.SenderPublicKey())}
+			k := fmt.Sprintf("%d/%d/%s/%x", r.T, r.S, r.Ses, r.Key)
+			if !seen[k] {
+				seen[k] = true
+				recs = append(recs, r)
+			}
+		}
+	}
+	return recs, total
+}
+
+// VerifC08TypeName returns the wire type of the message sent by state t (1, 3..11), "" otherwise.
+func VerifC08TypeName(t int) string {
+	if b := verifBlank(t); b != nil {
+		return b.Type()
+	}
+	return ""
 }
